@@ -103,6 +103,19 @@ Theorem rot_names_order_index : forall strf rtm c, (forall k t, strf k t <> []) 
 Proof. exact rot_names_index_thm. Qed.
 Print Assumptions rot_names_order_index.
 
+(* rot_names_order, Date / DateAndTime (scope note (i) as explicit premises: one run with non-decreasing
+   timestamps from the start instant on, strftime monotone w.r.t. an order [dle] on suffixes):
+   a newer file never has an earlier suffix, and files with equal suffix have increasing indices. *)
+Theorem rot_names_order_date : forall strf rtm c, (forall k t, strf k t <> []) -> forall wm rm start d0,
+  clean c d0 -> (wm = false -> fs_content (live_path c) d0 = []) ->
+  forall (dle : comp -> comp -> Prop) ops,
+  (forall t1 t2, t1 <= t2 -> dle (suffix strf c t1) (suffix strf c t2)) ->
+  mono start ops ->
+  let sN := run0 strf rtm c wm rm start d0 ops in
+  StronglySorted (fun a b => dle (fdt b) (fdt a)) (tl (dq sN)) /\ ordp (dq sN).
+Proof. exact names_order_date_thm. Qed.
+Print Assumptions rot_names_order_date.
+
 (* unrelated files are never touched *)
 Theorem rot_decoys_untouched : forall strf rtm c, (forall k t, strf k t <> []) -> forall wm rm start d0 ops,
   init_ok c wm d0 -> Forall (ok_op c) ops ->
